@@ -349,3 +349,19 @@ def check(ctx):
     if n_member == 0 and not ctx.findings:
         ctx.ob('C04.MEMBER', False, W, f.qual, 'accepting paths',
                'no path of the role check accepts: a held role never passes')
+    # C04.PARSE: the role check met in a rule text is built from that very
+    # text (kind and X as written): the tokenizer hands the word it peeled to
+    # the single-check parser (= C01.T7) and nothing else supplies the check
+    def _t7(ctx):
+        from . import c01 as _c01
+        from .. import tokenizer as T
+        try:
+            classes, pstate, table, effects, model = _c01.grammar_model(ctx)
+            ctx._effects = effects
+            tf, en, paths = T.extract(ctx.prog)
+            _c01.check_tokenizer(ctx, table, tf, en, paths)
+        except AnalysisError as e:
+            ctx.assume('C04.PARSE not decided (C01 declines: %s)'
+                       % str(e)[:120])
+    ctx.borrow('C04.PARSE', _t7, only=['C01.T7'])
+
